@@ -719,15 +719,69 @@ func (c01) Run(ctx *Ctx, ci interface{}) (o Outcome) {
 				applied = false
 				break
 			}
-			modelled = false
-			al.RemoveGapSites([]float64{0, 0.5, 1}[op.N%3], op.Flag)
+			{
+				// documented meaning: cutoff 0 removes the positions with at least one gap, another cutoff the positions
+				// with a proportion of gaps >= cutoff; with ends only the runs of such positions at both ends
+				cutoff := []float64{0, 0.5, 1}[op.N%3]
+				l := m.length()
+				rm := make([]bool, l)
+				for k := 0; k < l; k++ {
+					g := 0
+					for _, r := range m.rows {
+						if r.Seq[k] == '-' {
+							g++
+						}
+					}
+					if cutoff == 0 {
+						rm[k] = g > 0
+					} else {
+						rm[k] = float64(g) >= cutoff*float64(len(m.rows))
+					}
+				}
+				if op.Flag {
+					a, b := 0, l-1
+					for a < l && rm[a] {
+						a++
+					}
+					for b >= 0 && rm[b] {
+						b--
+					}
+					for k := a; k <= b; k++ {
+						rm[k] = false
+					}
+				}
+				for i := range m.rows {
+					var sb strings.Builder
+					for k := 0; k < l; k++ {
+						if !rm[k] {
+							sb.WriteByte(m.rows[i].Seq[k])
+						}
+					}
+					m.rows[i].Seq = sb.String()
+				}
+				al.RemoveGapSites(cutoff, op.Flag)
+			}
 		case "trim-sequences":
 			if !isAl || n == 0 {
 				applied = false
 				break
 			}
-			modelled = false
-			al.TrimSequences(op.N, op.Flag)
+			if op.N >= 0 && op.N < m.length() {
+				for i := range m.rows {
+					if op.Flag {
+						m.rows[i].Seq = m.rows[i].Seq[op.N:]
+					} else {
+						m.rows[i].Seq = m.rows[i].Seq[:len(m.rows[i].Seq)-op.N]
+					}
+				}
+				if err := al.TrimSequences(op.N, op.Flag); err != nil {
+					fail("unexpected-error", "TrimSequences(%d) on length %d returns %v", op.N, len(before[0].Seq), err)
+					return
+				}
+			} else if err := al.TrimSequences(op.N, op.Flag); err == nil {
+				fail("add-verdict", "TrimSequences(%d) on an alignment of length %d reports no error", op.N, m.length())
+				return
+			}
 		case "remove-majority-sites":
 			if !isAl || n == 0 {
 				applied = false
@@ -748,15 +802,74 @@ func (c01) Run(ctx *Ctx, ci interface{}) (o Outcome) {
 				break
 			}
 			modelled = false
-			al.Compress()
+			{
+				// documented meaning: identical sites are removed, the weights are their numbers of occurrences
+				// (the order of the patterns may change): the set of columns and their counts are checked here
+				cnt := map[string]int{}
+				for k := 0; k < m.length(); k++ {
+					col := make([]byte, len(m.rows))
+					for i, r := range m.rows {
+						col[i] = r.Seq[k]
+					}
+					cnt[string(col)]++
+				}
+				w := al.Compress()
+				rows, _ := observe(cont)
+				okc := len(rows) == len(m.rows) && len(w) == len(cnt)
+				if okc && len(rows) > 0 {
+					okc = len(rows[0].Seq) == len(cnt)
+					for k := 0; okc && k < len(rows[0].Seq); k++ {
+						col := make([]byte, len(rows))
+						for i, r := range rows {
+							if k < len(r.Seq) {
+								col[i] = r.Seq[k]
+							}
+						}
+						if cnt[string(col)] != w[k] || w[k] == 0 {
+							okc = false
+						}
+						delete(cnt, string(col))
+					}
+				}
+				if !okc {
+					trail = append(trail, fmtOp(op))
+					fail("differs-from-model", "Compress: the columns left are not the distinct columns of the alignment with their numbers of occurrences (weights %v)\ncontainer:\n%s", w, fmtRows(rows))
+					return
+				}
+			}
 		case "translate":
 			if cont.Alphabet() != align.NUCLEOTIDS || n == 0 {
 				applied = false
 				break
 			}
 			modelled = false
-			if err := cont.Translate(op.N, 0); err != nil {
-				o.Add("operation_errors_outside_the_statement", 1)
+			{
+				// phases 0-2: each row becomes the translation of its own residues from that phase on (goalign's own
+				// Sequence.Translate is the reference for codon -> amino acid: C05 is not claimed), names and order stay
+				var want []HRow
+				okRef := op.N >= 0 && op.N <= 2
+				for _, r := range m.rows {
+					if !okRef {
+						break
+					}
+					aa, err := align.NewSequence(r.Name, []uint8(r.Seq), "").Translate(op.N, 0)
+					if err != nil {
+						okRef = false
+						break
+					}
+					want = append(want, HRow{r.Name, aa.Sequence()})
+				}
+				err := cont.Translate(op.N, 0)
+				if err != nil {
+					o.Add("operation_errors_outside_the_statement", 1)
+				} else if okRef && !m.dupNames() {
+					rows, _ := observe(cont)
+					if d := rowsEqual(rows, want); d != "" {
+						trail = append(trail, fmtOp(op))
+						fail("differs-from-model", "Translate(phase %d): %s\ncontainer:\n%s", op.N, d, fmtRows(rows))
+						return
+					}
+				}
 			}
 			m.dupOK = m.dupOK || false
 		case "clone":
